@@ -52,23 +52,25 @@ type SiteStat struct {
 
 // Result is one response.
 type Result struct {
-	ID      string     `json:"id,omitempty"`
-	Status  string     `json:"status"` // exit | panic | timeout | budget | recursion
-	Exit    int        `json:"exit"`
-	Stdout  []byte     `json:"stdout"`
-	Stderr  []byte     `json:"stderr"`
-	Ticks   int64      `json:"ticks"`
-	Panic   string     `json:"panic,omitempty"`    // normalised panic class
-	PanicAt []string   `json:"panic_at,omitempty"` // innermost-first ruby-ti frames
-	PanicS  string     `json:"panic_s,omitempty"`  // raw text (diagnostics only)
-	HangAt  string     `json:"hang_at,omitempty"`  // loop/recursion home function
-	EvHash  string     `json:"evhash"`             // hash of the event log
-	MapEvts int        `json:"map_evts"`           // map-range decisions with >= 2 keys
-	Timers  int        `json:"timers"`             // timers registered
-	Fired   int        `json:"fired"`              // timers fired by the virtual clock
-	Sites   []SiteStat `json:"sites,omitempty"`
-	Extra   any        `json:"extra,omitempty"`  // engine-specific output (lexsim)
-	Retire  bool       `json:"retire,omitempty"` // worker exits after this response (goroutine leak)
+	ID         string     `json:"id,omitempty"`
+	Status     string     `json:"status"` // exit | panic | timeout | budget | recursion
+	Exit       int        `json:"exit"`
+	Stdout     []byte     `json:"stdout"`
+	Stderr     []byte     `json:"stderr"`
+	Ticks      int64      `json:"ticks"`
+	Panic      string     `json:"panic,omitempty"`    // normalised panic class
+	PanicAt    []string   `json:"panic_at,omitempty"` // innermost-first ruby-ti frames
+	PanicS     string     `json:"panic_s,omitempty"`  // raw text (diagnostics only)
+	HangAt     string     `json:"hang_at,omitempty"`  // loop/recursion home function
+	EvHash     string     `json:"evhash"`             // hash of the event log
+	MapEvts    int        `json:"map_evts"`           // map-range decisions with >= 2 keys
+	SchedEvts  int        `json:"sched_evts"`         // baton hand-overs decided among >= 2 goroutines
+	Goroutines int        `json:"goroutines"`         // goroutines of the simulated process
+	Timers     int        `json:"timers"`             // timers registered
+	Fired      int        `json:"fired"`              // timers fired by the virtual clock
+	Sites      []SiteStat `json:"sites,omitempty"`
+	Extra      any        `json:"extra,omitempty"`  // engine-specific output (lexsim)
+	Retire     bool       `json:"retire,omitempty"` // worker exits after this response (goroutine leak)
 }
 
 type timer struct {
@@ -104,6 +106,9 @@ type run struct {
 	sampleFrom int64
 	nextDep    int64
 	guard      *guard
+
+	smu sync.Mutex // guards sch
+	sch schedState
 
 	ev      uint64
 	mapEvts int
@@ -161,6 +166,9 @@ func (r *run) finish(status string, code int) bool {
 	r.exit = code
 	r.nextEvent = 0 // every later Tick in this run takes the slow path and unwinds
 	close(r.doneCh)
+	if r.sch.dead != nil {
+		close(r.sch.dead) // goroutines parked for the baton unwind
+	}
 	return true
 }
 
@@ -277,6 +285,9 @@ func (r *run) recompute() {
 	}
 	if g := r.guard; g != nil && g.limit < n {
 		n = g.limit
+	}
+	if y := r.sch.nextYield; y > r.ticks && y < n {
+		n = y
 	}
 	r.nextEvent = n
 }
@@ -457,7 +468,7 @@ func (r *run) slow() {
 		r.mu.Unlock()
 		for _, tm := range due {
 			if tm.f != nil {
-				go tm.f()
+				Go(tm.f)
 			} else {
 				tm.ch <- time.Time{}
 			}
@@ -469,6 +480,9 @@ func (r *run) slow() {
 		if r.finish("budget", -2) {
 			runtime.Goexit()
 		}
+	}
+	if t >= r.sch.nextYield && r.guard == nil {
+		r.yield() // simulated preemption at a seeded quantum boundary
 	}
 	r.recompute()
 }
@@ -520,14 +534,17 @@ func Go(f func()) {
 		go f()
 		return
 	}
+	g := r.goStart() // a candidate for the baton from now on; runs when the scheduler says so
 	r.wg.Add(1)
 	go func() {
 		defer r.wg.Done()
+		defer r.goEnd(g)
 		defer func() {
 			if x := recover(); x != nil {
 				r.recordPanic(x)
 			}
 		}()
+		r.waitBaton(g)
 		f()
 	}()
 }
@@ -724,6 +741,9 @@ func Zero[T any](p *T) { var z T; *p = z }
 // Serve runs scenarios read from stdin, one JSON object per line, forever.
 func Serve(mainFn func(), reset func()) {
 	debug.SetMaxStack(768 << 20)
+	// One processor: the seeded scheduler's quiescence wait (sched.go) relies on it, and the
+	// simulated node never runs two goroutines of ruby-ti code at once anyway.
+	runtime.GOMAXPROCS(1)
 	// Optional explicit collection every N runs (SIMRT_GC_EVERY); measured to make no
 	// difference on this machine, so the automatic collector is the default.
 	gcEvery := 0
@@ -812,11 +832,13 @@ func runOne(sc Scenario, mainFn func(), reset func(), realOut, realErr *os.File,
 			r.only[s] = true
 		}
 	}
+	mainG := r.schedInit() // the simulated process's main goroutine holds the baton first
 	r.recompute()
 	cur = r
 	g0 := make(chan struct{})
 	go func() {
 		defer close(g0)
+		defer r.goEnd(mainG)
 		defer func() {
 			if x := recover(); x != nil {
 				r.recordPanic(x)
@@ -828,7 +850,7 @@ func runOne(sc Scenario, mainFn func(), reset func(), realOut, realErr *os.File,
 	}()
 	select {
 	case <-r.doneCh:
-	case <-time.After(180 * time.Second): // real time, failsafe only: nothing ticks, nothing exits
+	case <-time.After(90 * time.Second): // real time, failsafe only: nothing ticks, nothing exits
 		r.finish("stuck", -4)
 	}
 	retire := false
@@ -865,7 +887,8 @@ func runOne(sc Scenario, mainFn func(), reset func(), realOut, realErr *os.File,
 
 	res := Result{ID: sc.ID, Status: r.status, Exit: r.exit, Stdout: ob, Stderr: eb, Ticks: r.ticks,
 		Panic: r.panicC, PanicAt: r.panicAt, PanicS: r.panicS, HangAt: r.hangAt,
-		MapEvts: r.mapEvts, Timers: r.nTimers, Fired: r.nFired, Extra: r.extra, Retire: retire}
+		MapEvts: r.mapEvts, Timers: r.nTimers, Fired: r.nFired, Extra: r.extra, Retire: retire,
+		SchedEvts: r.sch.decisions, Goroutines: r.sch.nextGID}
 	if r.timedOut && r.status == "exit" {
 		res.Status = "timeout"
 	}
